@@ -1,6 +1,8 @@
 //! moyo_harness: runs the real moyo code in-process and writes case files for the Lean model.
+mod c08;
 mod c14;
 mod c15;
+mod c16;
 mod c18;
 mod c19;
 mod c20;
@@ -59,7 +61,9 @@ fn main() {
         other => {
             // Dispatch chain for per-property modules: each `dispatch` returns true if it handled the command.
             let handled = false;
+            let handled = handled || c08::dispatch(&args, seed);
             let handled = handled || c14::dispatch(&args, seed);
+            let handled = handled || c16::dispatch(&args, seed);
             let handled = handled || wyckoff::dispatch(&args, seed);
             let handled = handled || c18::dispatch(&args, seed);
             let handled = handled || c19::dispatch(&args, seed);
@@ -93,5 +97,5 @@ fn eval(infile: &str, outfile: &str, start: usize) {
 }
 
 fn eval_request(req: &str) -> Option<String> {
-    tables::eval_request(req)
+    c08::eval_request(req).or_else(|| tables::eval_request(req))
 }
